@@ -255,6 +255,19 @@ class Gen:
                 if k not in o and k not in {f[1] for f in fs} and k not in {f[0] for f in fs}:
                     o[k] = v
             add(o)
+        # an unknown member spelled like the *Python* name of an aliased field ("meta" next to / instead of "_meta"):
+        # on the wire that is just another unknown member
+        for attr, wire, ann, req in fs:
+            if wire == attr:
+                continue
+            o = self.full(cls)
+            if wire in o:
+                both = dict(o)
+                both[attr] = {"py": "name"} if isinstance(o[wire], dict) else "py-name"
+                add(both)
+                if not req:
+                    only = {k: v for k, v in both.items() if k != wire}
+                    add(only)
         # thorough: seeded objects choosing a random value for every required field and for a random half of the
         # optional ones (value interactions between fields, nested models filled in at random as well)
         if exhaustive_optionals:
